@@ -36,7 +36,11 @@ func waitSettled(b *sim.Boundary, window, patience time.Duration) bool {
 		} else if time.Since(since) >= window {
 			return true
 		}
+		t0 := time.Now()
 		time.Sleep(time.Millisecond)
+		if time.Since(t0) > 5*time.Millisecond { // not being scheduled promptly: the window does not count (see sim.WaitQuiet)
+			since = time.Now()
+		}
 	}
 	return false
 }
